@@ -61,14 +61,92 @@ def _imports(node, guarded):
     return needs, pairs
 
 
-def unit(name, source):
+def _bound_names(tree):
+    """every name the text binds anywhere (over-approximation of what is visible: never reports a bound name as unresolved)"""
+    names = set()
+    for n in ast.walk(tree):
+        if isinstance(n, (ast.FunctionDef, ast.AsyncFunctionDef, ast.ClassDef)):
+            names.add(n.name)
+        if isinstance(n, (ast.FunctionDef, ast.AsyncFunctionDef, ast.Lambda)):
+            a = n.args
+            for x in a.args + a.kwonlyargs + a.posonlyargs:
+                names.add(x.arg)
+            if a.vararg:
+                names.add(a.vararg.arg)
+            if a.kwarg:
+                names.add(a.kwarg.arg)
+        if isinstance(n, ast.Name) and isinstance(n.ctx, (ast.Store, ast.Del)):
+            names.add(n.id)
+        if isinstance(n, (ast.Import, ast.ImportFrom)):
+            for a in n.names:
+                names.add((a.asname or a.name).split(".")[0])
+        if isinstance(n, ast.ExceptHandler) and n.name:
+            names.add(n.name)
+        if (isinstance(n, ast.Call) and isinstance(n.func, ast.Name) and n.func.id == "exec" and n.args
+                and isinstance(n.args[0], ast.Constant) and isinstance(n.args[0].value, str)):
+            try:  # exec("def name(...): ...") at module level binds what the literal text binds
+                names |= _bound_names(ast.parse(n.args[0].value))
+            except SyntaxError:
+                pass
+    return names
+
+
+def _module_level(tree):
+    names = set()
+    for st in tree.body:
+        if isinstance(st, (ast.FunctionDef, ast.AsyncFunctionDef, ast.ClassDef)):
+            names.add(st.name)
+        else:
+            names |= _bound_names(ast.Module(body=[st], type_ignores=[]))
+    return names
+
+
+def _used_names(tree):
+    """names read at run time (annotations are not evaluated: every shipped module has `from __future__ import annotations`)"""
+    for n in ast.walk(tree):
+        if isinstance(n, (ast.FunctionDef, ast.AsyncFunctionDef)):
+            n.returns = None
+            for a in n.args.args + n.args.kwonlyargs + n.args.posonlyargs:
+                a.annotation = None
+            if n.args.vararg:
+                n.args.vararg.annotation = None
+            if n.args.kwarg:
+                n.args.kwarg.annotation = None
+        if isinstance(n, ast.AnnAssign):
+            n.annotation = ast.Constant(0)
+    out = set()
+
+    def walk(n):
+        if isinstance(n, ast.If) and "TYPE_CHECKING" in ast.unparse(n.test):
+            for o in n.orelse:
+                walk(o)
+            return
+        if isinstance(n, ast.Call) and isinstance(n.func, ast.Name) and n.func.id == "cast" and n.args:
+            for a in n.args[1:]:  # cast("Type", value): the first argument is a type expression, usually a string
+                walk(a)
+            return
+        if isinstance(n, ast.Name) and isinstance(n.ctx, ast.Load):
+            out.add(n.id)
+        for ch in ast.iter_child_nodes(n):
+            walk(ch)
+
+    walk(tree)
+    return out
+
+
+def unit(name, source, env=()):
+    """env: names the text that is executed before this unit (in the same namespace) has bound"""
+    import builtins
+
     tree = ast.parse(source)
     needs, pairs = _imports(tree, False)
     unbalanced = set()
     for tb, hb in pairs:
         unbalanced |= tb ^ hb
     # names used in functions that are bound only by the try branch of a guarded import are caught by `unbalanced`
-    return {"name": name, "needs": sorted(needs), "unbalanced": sorted(unbalanced)}
+    bound = _bound_names(tree)
+    unresolved = _used_names(ast.parse(source)) - bound - set(dir(builtins)) - set(env) - {"__file__", "__name__", "__doc__"}
+    return {"name": name, "needs": sorted(needs), "unbalanced": sorted(unbalanced), "unresolved": sorted(unresolved)}
 
 
 def projection():
@@ -78,7 +156,9 @@ def projection():
     import execnet.rsync_remote as rr
     from execnet.script import socketserver as ss
 
-    units = [unit("gateway_base", inspect.getsource(gb)), unit("gateway_io", inspect.getsource(gio)),
-             unit("socketio", inspect.getsource(gs.SocketIO)), unit("socketserver", inspect.getsource(ss)),
-             unit("rsync_remote", inspect.getsource(rr))]
+    base_names = _module_level(ast.parse(inspect.getsource(gb)))
+    # remote_exec of a module: its text runs with `channel` bound; bootstrap_socket: gateway_base's text, "import socket", then SocketIO's
+    units = [unit("gateway_base", inspect.getsource(gb)), unit("gateway_io", inspect.getsource(gio), {"channel"}),
+             unit("socketio", inspect.getsource(gs.SocketIO), base_names | {"socket"}), unit("socketserver", inspect.getsource(ss), {"channel"}),
+             unit("rsync_remote", inspect.getsource(rr), {"channel"})]
     return {"units": units, "stdlib": sorted(sys.stdlib_module_names)}
